@@ -65,8 +65,12 @@ struct HHashBig { typedef HashMap<int, Tracked> H; static H make() { H m; for (i
 struct HShared { typedef Shared<Tracked> H; static H make() { return H(new Tracked(9)); } static bool read(const H& h) { return h->ok() && h->v == 9; } static const char* name() { return "Shared<Tracked>"; } };
 struct HSmart { typedef Thing H; static H make() { return Thing(); } static bool read(const H& h) { return h.ok(); } static const char* name() { return "SmartObject class"; } };
 
-enum Op { OP_COPY, OP_ASSIGN, OP_DROP, OP_READ, OP_REACQUIRE, NOPS };
-static const char* OPN[] = {"copy", "assign", "drop", "read", "reacquire"};
+enum Op { OP_COPY, OP_ASSIGN, OP_DROP, OP_READ, OP_REACQUIRE, OP_RESET, NOPS };
+static const char* OPN[] = {"copy", "assign", "drop", "read", "reacquire", "reset-by-assigning-an-empty-handle"};
+
+// the empty / null handle of each kind (a default-constructed smart class is a new object, its null handle is built from a null pointer)
+template<class K> struct EmptyOf { static typename K::H get() { return typename K::H(); } };
+template<> struct EmptyOf<HSmart> { static Thing get() { return Thing((SmartObject_*)0); } };
 
 // a thread's program over its own handles (it always keeps its seed handle until the end)
 template<class K>
@@ -83,6 +87,7 @@ static void runProgram(const typename K::H& seedHandle, const std::vector<int>& 
 		case OP_DROP: if (own.size() > 1) { delete own.back(); own.pop_back(); } break;
 		case OP_READ: if (!K::read(*own[arg % own.size()])) (*badRead)++; break;
 		case OP_REACQUIRE: if (own.size() > 1) { delete own.back(); own.back() = new H(seedHandle); } break;
+		case OP_RESET: if (own.size() > 1) { *own.back() = EmptyOf<K>::get(); delete own.back(); own.pop_back(); } break;
 		}
 	}
 	for (size_t i = 0; i < own.size(); i++) delete own[i];
